@@ -7,6 +7,13 @@ def declaredOutsideWhy : List (String × String) :=
    ("spectrum_randomizer", "randomizer.py: random test-data generator, edits the annotation it is given by contract"),
    ("top_down_randomizer", "randomizer.py: random test-data generator, edits the annotation it is given by contract"),
    ("random_intervals", "randomizer.py: random test-data generator (takes a str)"),
+   ("compliance_randomizer", "randomizer.py: random test-data generator"),
+   ("random_sequence", "randomizer.py: random test-data generator"),
+   ("random_mod", "randomizer.py: random test-data generator"),
+   ("random_interval", "randomizer.py: random test-data generator"),
+   ("reload_all_databases", "mod_db_setup: explicit editor of the modification databases"),
+   ("reload_all_databases_from_online", "mod_db_setup: explicit editor of the modification databases"),
+   ("reset_all_databases", "mod_db_setup: explicit editor of the modification databases"),
    ("count_invalid_entries", "mod_db_setup: import-time helper over ModEntry lists"),
    ("get_isotopic_atomic_masses", "element_setup: import-time table builder"),
    ("map_atomic_number_to_comp", "element_setup: import-time table builder"),
@@ -43,6 +50,13 @@ def declaredOutsideCodes : List (List Nat) :=
    [115, 112, 101, 99, 116, 114, 117, 109, 95, 114, 97, 110, 100, 111, 109, 105, 122, 101, 114],
    [116, 111, 112, 95, 100, 111, 119, 110, 95, 114, 97, 110, 100, 111, 109, 105, 122, 101, 114],
    [114, 97, 110, 100, 111, 109, 95, 105, 110, 116, 101, 114, 118, 97, 108, 115],
+   [99, 111, 109, 112, 108, 105, 97, 110, 99, 101, 95, 114, 97, 110, 100, 111, 109, 105, 122, 101, 114],
+   [114, 97, 110, 100, 111, 109, 95, 115, 101, 113, 117, 101, 110, 99, 101],
+   [114, 97, 110, 100, 111, 109, 95, 109, 111, 100],
+   [114, 97, 110, 100, 111, 109, 95, 105, 110, 116, 101, 114, 118, 97, 108],
+   [114, 101, 108, 111, 97, 100, 95, 97, 108, 108, 95, 100, 97, 116, 97, 98, 97, 115, 101, 115],
+   [114, 101, 108, 111, 97, 100, 95, 97, 108, 108, 95, 100, 97, 116, 97, 98, 97, 115, 101, 115, 95, 102, 114, 111, 109, 95, 111, 110, 108, 105, 110, 101],
+   [114, 101, 115, 101, 116, 95, 97, 108, 108, 95, 100, 97, 116, 97, 98, 97, 115, 101, 115],
    [99, 111, 117, 110, 116, 95, 105, 110, 118, 97, 108, 105, 100, 95, 101, 110, 116, 114, 105, 101, 115],
    [103, 101, 116, 95, 105, 115, 111, 116, 111, 112, 105, 99, 95, 97, 116, 111, 109, 105, 99, 95, 109, 97, 115, 115, 101, 115],
    [109, 97, 112, 95, 97, 116, 111, 109, 105, 99, 95, 110, 117, 109, 98, 101, 114, 95, 116, 111, 95, 99, 111, 109, 112],
@@ -56,5 +70,14 @@ def declaredSharingCodes : List (List Nat) :=
   [[80, 114, 111, 70, 111, 114, 109, 97, 65, 110, 110, 111, 116, 97, 116, 105, 111, 110, 46, 103, 101, 116, 95, 105, 110, 116, 101, 114, 110, 97, 108, 95, 109, 111, 100, 115, 95, 98, 121, 95, 105, 110, 100, 101, 120],
    [99, 114, 101, 97, 116, 101, 95, 109, 117, 108, 116, 105, 95, 97, 110, 110, 111, 116, 97, 116, 105, 111, 110],
    [109, 101, 114, 103, 101, 95, 100, 105, 99, 116, 115]]
+
+/-- the explicit editors of the modification databases (public, no annotation/dict/list parameter): the only API members
+allowed to write an EntryDb object -/
+def declaredDbEditors : List String := ["reload_all_databases", "reload_all_databases_from_online", "reset_all_databases"]
+
+def declaredDbEditorCodes : List (List Nat) :=
+  [[114, 101, 108, 111, 97, 100, 95, 97, 108, 108, 95, 100, 97, 116, 97, 98, 97, 115, 101, 115],
+   [114, 101, 108, 111, 97, 100, 95, 97, 108, 108, 95, 100, 97, 116, 97, 98, 97, 115, 101, 115, 95, 102, 114, 111, 109, 95, 111, 110, 108, 105, 110, 101],
+   [114, 101, 115, 101, 116, 95, 97, 108, 108, 95, 100, 97, 116, 97, 98, 97, 115, 101, 115]]
 
 end Effects
